@@ -5,7 +5,8 @@ A program is {"files": {uri: File}, "main": uri}.  A File is a dict
     {"page": "<args source>" | None,       # <%page args="..."/>
      "page_attrs": {name: value},           # further <%page> attributes (enable_loop ...)
      "module": ["python source", ...],      # <%! %> blocks
-     "nsimport": [[uri, "a, b"], ...],      # <%namespace file=uri import="a, b"/>
+     "nsimport": [[uri, "a, b"], ...],      # <%namespace file=uri import="a, b"/>   ([uri, names, owner]: the defs are inherited by uri from owner)
+     "inherit": uri,                        # <%inherit file=uri/>
      "body": [Stmt, ...]}
 
 and a Stmt one of
@@ -150,7 +151,10 @@ def print_file(f):
         for a, v in (f.get("page_attrs") or {}).items():
             s += " %s=%s" % (a, _q(v))
         out.append(s + "/>")
-    for uri, names in f.get("nsimport") or []:
+    if f.get("inherit"):
+        out.append("<%%inherit file=%s/>" % _q(f["inherit"]))
+    for ent in f.get("nsimport") or []:
+        uri, names = ent[0], ent[1]  # (a third element names the file that really holds the defs: reference only)
         out.append("<%%namespace file=%s import=%s/>" % (_q(uri), _q(names)))
     for src in f.get("module") or []:
         if "\n" in src:
